@@ -60,7 +60,9 @@ class RealSession:
             ev.append(f"sclose{conn}")
         w.close_hook = log_close
         w.open_hook = lambda conn: ev.append(f"sopen{conn}")
-        c.on_pre_connect = lambda cl, ud: ev.append("on_pre_connect")
+        # (cbw=3: the application publishes from inside on_pre_connect, i.e. after reconnect() has rewound the stored messages
+        # and before the new socket exists)
+        c.on_pre_connect = lambda cl, ud: (ev.append("on_pre_connect"), self.nested(cl) if cfg.get("cbw", 0) == 3 else None)
         c.on_connect_fail = lambda cl, ud: ev.append("on_connect_fail")
         if proto == 5:
             c.on_connect = lambda cl, ud, flags, reason, props: (ev.append(f"on_connect:{reason.value}:{flags['session present']}"), self.nested(cl) if cfg.get("cbw", 0) == 2 and reason.value == 0 else None)
@@ -294,6 +296,79 @@ class Shadow:
         self.subs = []
         self.hosted = False
         self.pending = []
+
+
+def gen_backlog(rng, nested=False):
+    """scripted: a full in-flight window with a backlog waiting behind it when the connection is lost; reconnect attempts that
+    fail, publishes while there is no connection (and, `nested`, from inside on_pre_connect: after reconnect() has rewound
+    the stored messages, before the new socket exists); then the connection is re-established, acknowledgements arrive one
+    by one in publish() order and the application publishes again.  Every accepted message must be (re)transmitted on the
+    new connection, in publish() order, as soon as the window admits it."""
+    proto = rng.choice([4, 4, 5, 3])
+    n = rng.choice([1, 2, 2, 3])
+    cfg = dict(proto=proto, clean=(rng.choice([0, 0, 1, 3]) if proto == 5 else rng.choice([0, 0, 1])), N=n, M=0, manual=0, rof=1,
+               ext=0, ka=rng.choice([0, 60]), sup=0)
+    if nested:
+        cfg.update(cbpub=rng.choice([1, 1, 2]), cbn=rng.choice([1, 1, 2]), cbw=3, cbop=0)
+    cb_left = cfg.get("cbn", 0)
+    case = ["cfg " + " ".join(f"{k}={v}" for k, v in cfg.items())]
+    msgs = []         # (mid, qos) of every QoS 1/2 message accepted so far, in publish() order
+    mid = [0]
+
+    def pub(q=None):
+        q = q or rng.choice([1, 1, 2])
+        mid[0] += 1
+        msgs.append((mid[0], q))
+        case.append(f"publish {q} {hx(b't/' + bytes([97 + rng.randrange(4)]))} {hx(bytes([rng.randrange(256)]))} 0")
+
+    def conn(op):
+        nonlocal cb_left
+        case.append(op)
+        if nested and cb_left > 0:        # on_pre_connect fires in every connect() / reconnect(): the nested publish draws an id
+            cb_left -= 1
+            mid[0] += 1
+            msgs.append((mid[0], cfg["cbpub"]))
+
+    conn("connect ok")
+    case.append("rx connack 0 0")
+    for _ in range(n + rng.randint(1, 3)):
+        pub()
+    recd = set()
+    if rng.random() < 0.4:
+        # part of the window makes progress before the loss
+        m0, q0 = msgs[0]
+        if q0 == 2:
+            case.append(f"rx pubrec {m0}")
+            recd.add(m0)
+    case.append(rng.choice(["rx eof", "rx err"]))
+    for _ in range(rng.choice([0, 1, 1, 2])):
+        conn("reconnect refuse")
+        if rng.random() < 0.7:
+            pub()
+    if rng.random() < 0.3:
+        pub()
+    conn("reconnect ok")
+    if rng.random() < 0.25:
+        pub()
+    case.append(f"rx connack {int(cfg['clean'] == 0)} 0")
+    extra = rng.randint(0, 2)
+    persistent = (cfg["clean"] == 0) if proto != 5 else cfg["clean"] in (0, 3)
+    k = 0
+    while k < len(msgs):
+        m, q = msgs[k]
+        if q == 1:
+            case.append(f"rx puback {m}")
+        else:
+            if not (m in recd and persistent):
+                case.append(f"rx pubrec {m}")
+            case.append(f"rx pubcomp {m}")
+        if extra and rng.random() < 0.4:
+            extra -= 1
+            pub()
+        if rng.random() < 0.1:
+            case.append("rx none")
+        k += 1
+    return case
 
 
 def gen_case(rng, tier, weights=None, maxlen=None):
@@ -588,6 +663,8 @@ class SessionStream:
     from streams.session_monitors import MONITORS as monitors
 
     def gen(self, rng, tier):
+        if rng.random() < 0.06:
+            return gen_backlog(rng)
         return gen_case(rng, tier)
 
     def real(self, case):
@@ -629,8 +706,10 @@ class ReentryStream(SessionStream):
     def gen(self, rng, tier):
         if rng.random() < 0.25:
             return self.gen_window(rng)
+        if rng.random() < 0.2:
+            return gen_backlog(rng, nested=rng.random() < 0.7)
         case = gen_case(rng, tier)
-        cfg = case[0] + f" cbpub={rng.choice([1, 1, 2])} cbn={rng.choice([1, 2, 3])} cbw={rng.choice([0, 0, 1, 2])} cbop={rng.choice([0, 0, 0, 1, 2])}"
+        cfg = case[0] + f" cbpub={rng.choice([1, 1, 2])} cbn={rng.choice([1, 2, 3])} cbw={rng.choice([0, 0, 1, 2, 3])} cbop={rng.choice([0, 0, 0, 1, 2])}"
         # small windows make the release order visible
         if rng.random() < 0.7:
             cfg = " ".join((f"N={rng.choice([1, 1, 2])}" if w.startswith("N=") else "ext=0" if w.startswith("ext=") else w) for w in cfg.split())
